@@ -99,7 +99,11 @@ def gen_sentence(rnd, style):
         if rnd.random() < 0.6:
             sp.append(rnd.choice("LWA" if style != "kitty" or rnd.random() < 0.2 else "LW"))
         if rnd.random() < 0.5:
-            sp.append("z" + str(rnd.choice([0, 1, -1, 2**31 - 1, -(2**31) + 1, -(2**31), 2**31, 2**32, rnd.randint(-(2**33), 2**33)])))
+            z = str(rnd.choice([0, 1, -1, 2**31 - 1, -(2**31) + 1, -(2**31), 2**31, 2**32, rnd.randint(-(2**33), 2**33), 10**11 - 1, -(10**11)]))
+            if rnd.random() < 0.25:
+                # a numeral may be as long as one likes: leading zeros do not change its value
+                z = z[: z.startswith("-")] + "0" * rnd.randint(1, 18) + z.lstrip("-")
+            sp.append("z" + z)
         if rnd.random() < 0.5:
             sp.append("m" + rnd.choice("011 2"[0:3]))
         if rnd.random() < 0.5:
